@@ -84,7 +84,7 @@ RULE = (
     "instances are referenced by somebody else's subscription runs a cleanup "
     "call (25%), after a blocked cleanup (60%) the blocking subscription is "
     "removed by its creator, the cleanup is retried or the client restarts.  "
-    "With two servers (42% of the steps of a manager that is not in a "
+    "With two servers (42-58% of the steps of a manager that is not in a "
     "blocked cleanup): register the other server too, repeat on a server "
     "the add_destination/add_filter/add_subscriptions call of an instance "
     "the manager owns on the other server (same IDs, URL, pair: equal "
@@ -180,7 +180,7 @@ SENSITIVITY = [
     'remove_subscriptions() not updating the local list -> history/owned-list:rm_subs:sub:claims-unknown-instance',
     "filter marker built as 'pywbemfilter:<filter id>:<manager id>' -> history/add_filter:Name-is-not-the-documented-marker, idpairs/add_filter:Name-is-not-the-documented-marker",
     '(quick tier, seed 1, tree with /tmp/proposed_fixes/C18-1-failed-remove-server-drops-owned-lists.diff and without it) remove_server() dropping an owned list only after all its instances were deleted, instead of entry by entry (/tmp/seeded_out/C18/change2.diff) -> history/owned-list:failed-cleanup:filter:claims-instance-it-has-deleted, history/owned-list:failed-cleanup:dest:claims-instance-it-has-deleted (needs a blocked cleanup: 14% of the histories)',
-    '(quick tier, seed 1) remove_destinations()/remove_filter()/remove_subscriptions() dropping the removed path from the owned lists of all registered servers (/tmp/seeded_out/C18/change4.diff) -> history/owned-list:rm_dests:dest:forgets-instance-with-same-path-as-one-removed-on-another-server, same for rm_filter:filter and rm_subs:sub (needs twins: 3-4% of the histories, a tenth of those with two servers, have a twin removed on one server)',
+    '(quick tier, seed 1) remove_destinations()/remove_filter()/remove_subscriptions() dropping the removed path from the owned lists of all registered servers (/tmp/seeded_out/C18/change4.diff) -> history/owned-list:rm_dests:dest:forgets-same-path-on-other-server, same for rm_filter:filter and rm_subs:sub (needs twins: 5% of the histories, a fifth of those with two servers, have a twin removed on one server)',
     '(tree before 40ef205) remove_server() that fails at a referenced filter/destination has already dropped the owned lists of the kinds it was done with, but the server stays registered: get_owned_subscriptions()/get_owned_filters(), add_subscriptions() ... raise KeyError -> history/remove_server:failed-cleanup-leaves-server-registered-without-owned-list; gone with /tmp/proposed_fixes/C18-1-failed-remove-server-drops-owned-lists.diff',
     '(unchanged tree) manager ID not escaped in the discovery patterns -> history/discovery:manager-id-interpreted-as-regex, idpairs/discovery:manager-id-interpreted-as-regex; gone with /tmp/proposed_fixes/C18-manager-id-regex-escape.diff',
 ]
@@ -1554,8 +1554,8 @@ class World:
         elif missing and [1 for sj, k in self.just_removed
                           if sj != si and k in missing]:
             # instance paths carry no host
-            sig = ('owned-list:%s:%s:forgets-instance-with-same-path-as-'
-                   'one-removed-on-another-server' % (op, kind))
+            sig = 'owned-list:%s:%s:forgets-same-path-on-other-server' % (
+                op, kind)
         elif missing:
             sig = 'owned-list:%s:%s:lacks-own-instance' % (op, kind)
         elif dup:
@@ -1646,15 +1646,14 @@ class Machine:
         o = w.own(m)
         reg = sorted(m['servers'])
         if len(reg) < len(w.conns):
-            if steer < 45 and [r for si in reg for r in w.recs[si].values()
-                               if r.owner == o]:
+            if steer < 45:
                 return {'op': 'add_server', 'm': mi,
                         's': [i for i in range(len(w.conns))
                               if i not in reg][0]}
             return None
         cands = []
         need = []
-        if steer < 55:
+        if steer < 55 or steer >= 72:
             # an owned instance of another server that is missing here
             for si in reg:
                 uf = w.usable(m, si, 'filter')
@@ -1693,7 +1692,8 @@ class Machine:
         subs = [c for c in cands if c['op'] in ('add_subs', 'rm_subs')]
         if (subs or need) and draw(_I10) < 7:
             cands = subs or need
-        self.ctx.event('gen:twin:%s:subs=%d:need=%d:cands=%d' % ('add' if steer < 55 else 'rm', min(len(subs),1), min(len(need),1), min(len(cands),1)))
+        elif steer >= 72:
+            return None         # this share only completes twin pairs
         if not cands:
             return None
         return cands[draw(_I1000) % len(cands)]
@@ -1746,7 +1746,7 @@ class Machine:
                         step[key] = w.mgr_owned(si, k).index(
                             mine[draw(_I100) % len(mine)])
                 return step
-        if reg and not blk and ns > 1 and 30 <= steer < 72:
+        if reg and not blk and ns > 1 and 30 <= steer < 88:
             # twins: instance paths carry no host, so the same filter ID /
             # destination ID / (filter, destination) pair on two servers
             # gives equal paths.  Register the other server too, repeat
